@@ -58,6 +58,18 @@ def real_shape(obj, key=None):
     if isinstance(obj, var.Array):
         # the element structure as the first, second and third element of the open list get it: all must be the documented one
         shapes = [real_shape(generate(obj.item_decriptor)) for _ in range(3)]
+        # ... and as the open list itself creates its elements when values are put into it (append / set with an empty element)
+        for how in ("append", "set"):
+            try:
+                if how == "append":
+                    obj.append([])
+                    made = obj[len(obj) - 1]
+                else:
+                    obj.set([[]])
+                    made = obj[0]
+                shapes.append(real_shape(made, shapes[0].get("key")))
+            except Exception as exc:  # noqa: BLE001
+                shapes.append({"k": f"element-not-created-by-{how}: {type(exc).__name__}", "key": "*", "sub": []})
         sub = shapes[0]
         for later in shapes[1:]:
             if later != shapes[0]:
